@@ -180,6 +180,11 @@ SUMMARIES: dict[str, Summary] = {
     "asyncio.streams.StreamWriter.write": Summary(NONE, "buffers; errors surface in drain"),
     "asyncio.streams.StreamWriter.drain": Summary([OSE], "ConnectionResetError etc."),
     "asyncio.streams.StreamWriter.close": Summary(NONE, "total"),
+    "asyncio.streams.StreamWriter.get_extra_info": Summary(NONE, "dictionary lookup with a default"),
+    "asyncio.transports.BaseTransport.get_extra_info": Summary(NONE, "dictionary lookup with a default"),
+    "_struct.pack": Summary(NONE, "constant format and integer arguments (struct.error only for a mismatching format)"),
+    "socket.socket.setsockopt": Summary([OSE], "setsockopt(2) failure"),
+    "_socket.socket.setsockopt": Summary([OSE], "setsockopt(2) failure"),
     "asyncio.streams.StreamWriter.wait_closed": Summary([OSE], "re-raises the connection-lost exception"),
     "serial_asyncio.open_serial_connection": Summary([OSE], "serial.SerialException subclasses OSError (serial/serialutil.py:92)"),
     # ---- aiofiles
